@@ -23,17 +23,76 @@ def wake_fn(F):
     return c[0]
 
 
-def set_flags_fns(F):
-    """functions that switch a descriptor to non-blocking: call fcntl(_, F_SETFL, flags)"""
+def wakefd_fields(F):
+    """(descriptor field, method field) of the owning type, located by type"""
+    a = F.adt(WAKEFD)
+    fs = a["variants"][0]["fields"]
+    fd = [f["name"] for f in fs if f["ty"] == "i32"]
+    me = [f["name"] for f in fs if f["ty"].endswith("WakeMethod")]
+    if len(fd) != 1 or len(me) != 1:
+        raise AnchorLost("WakeFd: one RawFd field and one WakeMethod field expected, found %s / %s" % (fd, me))
+    return fd[0], me[0]
+
+
+def owner_builders(F):
+    """public entry points whose normal form constructs the owning WakeFd: [(function, normal form)]"""
+    from .nf import NF
     out = []
-    for m in F.inst:
-        if not (m.local and m.body is not None):
-            continue
-        for bb, t, ci in call_sites(F, m, foreign("fcntl")):
-            cmd = [fold(e) for e in flow(m).term_arg(bb, 1)]
-            if cmd and all(c == F_SETFL for c in cmd):
-                out.append((m, bb, t))
+    for i in F.inst:
+        if i.local and i.body is not None and i.kind == "item" and i.crate == "signal_hook" and i.defp.startswith("signal_hook::low_level::pipe::"):
+            fn = None
+            for c, f in F.crate_items("fns"):
+                if f["path"] == i.defp:
+                    fn = f
+            if fn is None or not fn["pub"]:
+                continue
+            n = NF(F, i)
+            if adt_constructions(n, WAKEFD):
+                out.append((i, n))
+    if not out:
+        raise AnchorLost("no public function of low_level::pipe constructs the owning WakeFd")
     return out
+
+
+def setfl_calls(F, n):
+    """fcntl(_, F_SETFL, flags) calls in a body: [(bb, term)]"""
+    out = []
+    for bb, t, ci in call_sites(F, n, foreign("fcntl")):
+        cmd = [fold(e) for e in flow(n).term_arg(bb, 1)]
+        if cmd and all(c == F_SETFL for c in cmd):
+            out.append((bb, t))
+    return out
+
+
+def failure_edges(n, call_bb, failure_value):
+    """switch edges taken when the integer result of the call at call_bb equals `failure_value`: (test blocks, {(src, dst)})"""
+    from ..conds import switch_edges
+    tests = set(); fail = set()
+    for (b, tgt, lab, exprs, t) in switch_edges(n):
+        for e in exprs:
+            e = deep_strip(e)
+            val = int(lab[3:]) if lab.startswith("sw:") else None
+            if e[0] == "call" and e[1] == call_bb:
+                tests.add(b)
+                fv = failure_value & 0xffffffff
+                vals = [v for v, _ in t["vals"]]
+                if val is not None and (val == failure_value or val == fv or val == (failure_value & 0xffffffffffffffff)):
+                    fail.add((b, tgt))
+                elif val is None and not any(v in (failure_value, fv, failure_value & 0xffffffffffffffff) for v in vals):
+                    pass
+            elif e[0] == "binop" and e[1] in ("Eq", "Ne"):
+                x, y = deep_strip(e[2]), deep_strip(e[3])
+                hit = None
+                for p_, q in ((x, y), (y, x)):
+                    if p_[0] == "call" and p_[1] == call_bb and fold(q) is not None and (fold(q) == failure_value or fold(q) == (failure_value & 0xffffffff)):
+                        hit = True
+                if not hit:
+                    continue
+                tests.add(b)
+                is_true = (val is not None and val != 0) or (val is None and [v for v, _ in t["vals"]] == [0])
+                if (e[1] == "Eq" and is_true) or (e[1] == "Ne" and not is_true):
+                    fail.add((b, tgt))
+    return tests, fail
 
 
 _b_cache = {}
@@ -44,77 +103,88 @@ def c13b(F):
     if id(F) in _b_cache:
         return _b_cache[id(F)]
     res = []
-    sf = set_flags_fns(F)
-    if not sf:
-        raise AnchorLost("no function sets F_SETFL (O_NONBLOCK) on the wake descriptor")
-    sf_ids = set()
-    for (m, bb, t) in sf:
-        args = flow(m).term_arg(bb, 2)
-        okk = bool(args) and all(any((fold(x) or 0) & O_NONBLOCK for x in or_terms(e)) for e in args)
-        res.append((okk, "setfl-nonblock@%s" % keyname(m.name), "fcntl(F_SETFL) argument contains the O_NONBLOCK constant",
-                    t["sp"], {"flags": [show(e) for e in args]}))
-        # the function reports failure of that fcntl: Ok(()) is returned only when the call did not return -1
-        sf_ids.add(m.id)
-    # every construction of a WakeFd with the `write` method is followed by a successful set_flags before it can
-    # reach an action closure
-    n_sites = 0
-    for m in F.inst:
-        if not (m.local and m.body is not None):
-            continue
+    fdf, mef = wakefd_fields(F)
+    n_sites = 0; n_setfl = 0
+    for (m0, m) in owner_builders(F):
+        fl = flow(m)
+        sf = setfl_calls(F, m)
+        for (bb, t) in sf:
+            n_setfl += 1
+            args = fl.term_arg(bb, 2)
+            okk = bool(args) and all(any((fold(x) or 0) & O_NONBLOCK for x in or_terms(e)) for e in args)
+            res.append((okk, "setfl-nonblock@%s" % keyname(m0.name), "fcntl(F_SETFL) argument contains the O_NONBLOCK constant",
+                        t["sp"], {"flags": [show(e) for e in args]}))
+        clos = closure_constructions(m)
         for (bb, si, rv) in adt_constructions(m, WAKEFD):
+            if m.blocks[bb].get("dead"):
+                continue
             fields = rv["fields"]
-            mi = fields.index("method") if "method" in fields else None
-            if mi is None:
-                raise AnchorLost("WakeFd has no `method` field")
-            meth = flow(m).operand(rv["ops"][mi], (bb, si))
-            is_write = any(not (e[0] == "agg" and e[1][0] == "adt" and e[1][2] == "Send") and
-                           not (e[0] == "const" and e[4] == "Send") for e in meth)
+            mi = fields.index(mef)
+            meth = [deep_strip(e) for e in fl.operand(rv["ops"][mi], (bb, si))]
+            is_write = (not meth) or any(not (e[0] == "agg" and e[1][0] == "adt" and e[1][2] == "Send") and
+                                         not (e[0] == "const" and e[4] == "Send") for e in meth)
             n_sites += 1
             if not is_write:
-                res.append((True, "wakefd-send@%s" % keyname(m.name), "WakeFd built with the send method (MSG_DONTWAIT per call)", rv.get("sp"), None))
+                res.append((True, "wakefd-send@%s" % keyname(m0.name), "WakeFd built with the send method (MSG_DONTWAIT per call)", rv.get("sp"), None))
                 continue
-            clos = closure_constructions(m)
-            sf_calls = [b for (b, t, ci) in call_sites(F, m, lambda ci: ci.id in sf_ids)]
+            # paths on which the method is known to be Send (a later test of the same value) need no O_NONBLOCK: drop those edges
+            drop = set()
+            from ..conds import switch_edges
+            for (b2, tgt, lab, exprs, t2) in switch_edges(m):
+                for e in exprs:
+                    e = deep_strip(e)
+                    if e[0] == "discr" and any(deep_strip(e[1]) == mm or (deep_strip(e[1])[0] == "field" and deep_strip(e[1])[2] == mef) for mm in meth):
+                        # which variant index is Send?
+                        send_vi = _variant_index(F, "signal_hook::low_level::pipe::WakeMethod", "Send")
+                        val = int(lab[3:]) if lab.startswith("sw:") else None
+                        if val is not None and val == send_vi:
+                            drop.add((b2, tgt))
             for (cb, csi, crv) in clos:
-                if cb not in cfg.reachable(m, bb, unwind=False):
+                if m.blocks[cb].get("dead") or cb not in cfg.reachable(m, bb, unwind=False):
                     continue
-                r = cfg.reachable(m, bb, avoid=set(sf_calls), unwind=False)
+                sfb = {b for b, _ in sf}
+                r = cfg.reachable_without_edges(m, bb, drop, avoid=sfb)
                 through = cb not in r
-                gated = False; why = "no set_flags call on the path"
-                if through and sf_calls:
-                    gated, why = True, ""
-                    for s in sf_calls:
-                        g, w = result_gates(F, m, s, cb)
-                        if not g:
-                            gated, why = False, w
-                res.append((through and gated, "wakefd-write@%s" % keyname(m.name),
+                leak = []
+                for (sbb, st) in sf:
+                    tests, fail = failure_edges(m, sbb, -1)
+                    if not tests:
+                        leak.append("result of fcntl(F_SETFL) is never examined")
+                    for (s_, d) in fail:
+                        if cb == d or cb in cfg.reachable(m, d, unwind=False):
+                            leak.append("action built on the failure path of fcntl(F_SETFL)")
+                res.append((through and bool(sf) and not leak, "wakefd-write@%s" % keyname(m0.name),
                             "a WakeFd using write() reaches the action closure only through a successful O_NONBLOCK switch",
-                            m.blocks[bb]["s"][si]["sp"], {"passes_set_flags": through, "result_checked": why}))
-    if n_sites < 2:
-        raise AnchorLost("expected the two WakeFd constructions (send / write) of register_raw, found %d" % n_sites)
+                            m.blocks[bb]["s"][si]["sp"], {"passes_setfl": through, "setfl_calls": len(sf), "result": leak}))
+    if n_sites < 1 or n_setfl < 1:
+        raise AnchorLost("expected WakeFd construction(s) and an F_SETFL call in the registering entry point, found %d / %d" % (n_sites, n_setfl))
     # every caller of the wake primitive passes either the constant Send or the `method` field of a WakeFd
     w = wake_fn(F)
     for (cid, k, bb) in F.callers().get(w.id, []):
         ci = F.inst[cid]
         if ci.body is None or k != "call":
             continue
-        # which argument is the method: the one whose type is WakeMethod
         t = ci.term(bb)
         for ai, a in enumerate(t["args"]):
             ex = flow(ci).term_arg(bb, ai)
-            tyok = False
             for e in ex:
                 e = deep_strip(e)
                 if e[0] == "agg" and e[1][0] == "adt" and e[1][1].endswith("WakeMethod"):
-                    tyok = True
                     res.append((e[1][2] == "Send", "wake-caller@%s" % keyname(ci.name),
                                 "caller passes the constant send method", t["sp"], {"method": show(e)}))
-                elif e[0] == "field" and e[2] == "method":
-                    tyok = True
+                elif e[0] == "field" and e[2] == mef:
                     res.append((WAKEFD in (e[4] or ""), "wake-caller@%s" % keyname(ci.name),
                                 "caller passes the method recorded in its WakeFd", t["sp"], {"method": show(e)}))
     _b_cache[id(F)] = res
     return res
+
+
+def _variant_index(F, adt, name):
+    a = F.adt(adt)
+    for i, v in enumerate(a["variants"]):
+        if v["name"] == name:
+            return v.get("discr", i)
+    raise AnchorLost("%s::%s" % (adt, name))
 
 
 def nonblock_write_established(ctx, F, m, bb):
@@ -196,13 +266,14 @@ def rule_c(ctx):
                   "register_raw owns the descriptor before any exit and drops or moves the owner on every path", floor=4)
     drop = F.one(name_re=r"^<signal_hook::low_level::pipe::WakeFd as core::ops::drop::Drop>::drop$", what="Drop for WakeFd")
     ctx.fn(drop)
+    fdf, mef = wakefd_fields(F)
     n_close = 0
     for m in F.inst:
         if not (m.local and m.body is not None) or is_user_code(m):
             continue
         for (bb, t, ci) in call_sites(F, m, foreign("close")):
             ex = flow(m).term_arg(bb, 0)
-            owned = any(mentions(e, lambda x: x[0] == "field" and x[2] == "fd" and WAKEFD in (x[4] or "")) for e in ex)
+            owned = any(mentions(e, lambda x: x[0] == "field" and x[2] == fdf and WAKEFD in (x[4] or "")) for e in ex)
             raw_param = m.defp == "signal_hook::low_level::pipe::register_raw" and any(mentions(e, lambda x: x[0] == "param") for e in ex)
             in_cone = m.id in dispatch_cone(F).parent
             if owned or raw_param or in_cone:
@@ -220,13 +291,13 @@ def rule_c(ctx):
            or i.name.startswith("core::mem::manually_drop::ManuallyDrop::<signal_hook::low_level::pipe::WakeFd")]
     ctx.check(not esc, rid, "owner:no-escape", "no forget/ManuallyDrop/ptr::read/Clone instance on WakeFd in the monomorphic program",
               None, [i.name for i in esc])
-    rr = F.one("signal_hook::low_level::pipe::register_raw")
-    ctx.fn(rr)
-    aggs = adt_constructions(rr, WAKEFD)
+    rr0, rr = owner_builders(F)[0]
+    ctx.fn(rr0)
+    aggs = [(bb, si, rv) for (bb, si, rv) in adt_constructions(rr, WAKEFD) if not rr.blocks[bb].get("dead")]
     ab = {bb for bb, _, _ in aggs}
     r = cfg.reachable(rr, 0, avoid=ab, unwind=False)
     ctx.check(not (r & set(rr.exits())) and aggs, rid, "register_raw:owns-before-exit",
-              "every normal exit of register_raw is preceded by the construction of the owning WakeFd", rr.span,
+              "every normal exit of register_raw is preceded by the construction of the owning WakeFd", rr0.span,
               "a return is reachable without constructing the owner (descriptor would leak on rejection)")
     # after construction: every path to return moves the owner into the action closure or drops it
     clos = {bb for bb, _, _ in closure_constructions(rr)}
@@ -235,7 +306,7 @@ def rule_c(ctx):
         r = cfg.reachable_after(rr, bb, avoid=clos | drops, unwind=False) | ({bb} - clos)
         bad = (r & set(rr.exits()))
         # the aggregate block itself may contain the closure construction
-        ctx.check(not bad, rid, "register_raw:owner-dropped-or-moved#%d" % len(rr.blocks[bb]["s"]),
+        ctx.check(not bad, rid, "register_raw:owner-dropped-or-moved",
                   "after constructing the owner every path to return moves it into the action or drops it (RAII close)",
                   rr.term(bb)["sp"], "a path to return neither moves nor drops the WakeFd")
 
@@ -262,8 +333,8 @@ def rule_d(ctx):
             x = e
             if x[0] == "call" and ((x[3] or "").endswith("AsRawFd::as_raw_fd") or _returns_live_fd(F, c, x)):
                 how.append("as_raw_fd() at wake time"); continue
-            if x[0] == "field" and x[2] == "fd" and WAKEFD in (x[4] or ""):
-                how.append("WakeFd.fd"); continue
+            if x[0] == "field" and x[2] == wakefd_fields(F)[0] and WAKEFD in (x[4] or ""):
+                how.append("WakeFd's descriptor field"); continue
             if x[0] == "param":
                 how.append("parameter (checked at the caller)"); continue
             okk = False; how.append("captured/raw value: " + show(x))
@@ -307,9 +378,9 @@ def rule_f(ctx):
     ctx.rule(rid, "in register_raw no explicit panic site (assert / panic / documented-panicking call) is reachable before the owning WakeFd exists "
                   "(unwinding before that point leaks the descriptor)", floor=1)
     from .C03 import panic_sites, undischarged_sites
-    rr = F.one("signal_hook::low_level::pipe::register_raw")
-    ctx.fn(rr)
-    aggs = {bb for bb, _, _ in adt_constructions(rr, WAKEFD)}
+    rr0, rr = owner_builders(F)[0]
+    ctx.fn(rr0)
+    aggs = {bb for bb, _, _ in adt_constructions(rr, WAKEFD) if not rr.blocks[bb].get("dead")}
     if not aggs:
         raise AnchorLost("owner construction in register_raw")
     early = cfg.reachable(rr, 0, avoid=aggs, unwind=False)
@@ -326,7 +397,7 @@ def rule_f(ctx):
                 und, _ = undischarged_sites(ctx, F, [c])
                 for (fm, s, ch) in und[:2]:
                     bad.append({"call": c.name[:120], "panic_site": s[1], "where": s[3]})
-    ctx.check(not bad, rid, "no-panic-before-owner", "nothing can panic in register_raw before the descriptor is wrapped in its closing owner", rr.span,
+    ctx.check(not bad, rid, "no-panic-before-owner", "nothing can panic in register_raw before the descriptor is wrapped in its closing owner", rr0.span,
               {"panic_sites_before_owner": bad, "why": "the refusal of a forbidden signal must release the descriptor (C14): a panic before WakeFd exists leaks it"})
 
 
